@@ -16,6 +16,11 @@ def decodeOp (j : Json) : R Op := do
   | "remove" => pure (.remove (← (← idx a 1).getNat?))
   | _ => throw s!"unknown op {name}"
 
+def pairList (j : Json) : R (List (Nat × Nat)) := do
+  (← j.getArr?).toList.mapM fun e => do
+    let a ← e.getArr?
+    pure ((← (← idx a 0).getNat?), (← (← idx a 1).getNat?))
+
 def decodeObs (j : Json) : R Spec.C07.Obs := do
   let links ← (← arrF j "links").toList.mapM fun e => do
     let a ← e.getArr?
@@ -23,7 +28,8 @@ def decodeObs (j : Json) : R Spec.C07.Obs := do
           (← (← idx a 3).getBool?), (← (← idx a 4).getBool?))
   pure { iter := ← natList (← field j "iter"), len := ← natF j "len",
          first := ← natF j "first", last := ← natF j "last",
-         links := links, back := ← natList (← field j "back") }
+         links := links, back := ← natList (← field j "back"),
+         zipped := ← pairList (← field j "zipped"), nested := ← pairList (← field j "nested") }
 
 def encodeObs (o : Spec.C07.Obs) : Json :=
   Json.mkObj [
@@ -31,7 +37,9 @@ def encodeObs (o : Spec.C07.Obs) : Json :=
     ("last", toJson o.last),
     ("links", Json.arr (o.links.map fun (x, p, n, f, l) =>
       Json.arr #[toJson x, jOptNat p, jOptNat n, toJson f, toJson l]).toArray),
-    ("back", jNatList o.back)]
+    ("back", jNatList o.back),
+    ("zipped", Json.arr (o.zipped.map fun (a, b) => Json.arr #[toJson a, toJson b]).toArray),
+    ("nested", Json.arr (o.nested.map fun (a, b) => Json.arr #[toJson a, toJson b]).toArray)]
 
 /-- Request: `{root, fuel, ops:[...], obs:[obs after each op (index 0 = initial)]}`.
 The model and the abstract list are advanced op by op; at every step the
